@@ -105,6 +105,9 @@ impl Prop for C09Schedules {
     fn shards(&self) -> usize {
         4
     }
+    fn max_shrink_iters(&self) -> u32 {
+        120
+    }
     fn strategy(&self, tier: Tier) -> BoxedStrategy<SchedCase> {
         let zero = |mut p: Pos| {
             p.half = 0;
@@ -113,12 +116,14 @@ impl Prop for C09Schedules {
         let nsched = tier.pick(3usize, 6usize);
         (
             prop_oneof![
-                6 => gen::endgame(4).prop_map(move |r| zero(gen::build(&r))),
+                // the fewer the men, the more transpositions between root-move subtrees
+                6 => gen::endgame(2).prop_map(move |r| zero(gen::build(&r))),
+                3 => gen::endgame(4).prop_map(move |r| zero(gen::build(&r))),
                 1 => gen::cage_theme().prop_map(move |r| zero(gen::build(&r))),
                 1 => gen::placement(8).prop_map(move |r| zero(gen::build(&r))),
                 1 => gen::walk(40).prop_map(move |w| zero(gen::walk_end(&w))),
             ],
-            2u8..=3,
+            prop_oneof![1 => Just(2u8), 4 => Just(3u8)],
             0u8..=3,
             0u8..5,
             prop::collection::vec(strategy_strategy(), nsched..=nsched),
@@ -133,7 +138,7 @@ impl Prop for C09Schedules {
             .boxed()
     }
     fn cases(&self, tier: Tier) -> u32 {
-        tier.pick(48, 800)
+        tier.pick(64, 1_200)
     }
     fn test(&self, c: &SchedCase, st: &mut Stats) -> TestResult {
         let mut pos = Pos::from_fen(&c.fen).map_err(Failure::new)?;
